@@ -16,7 +16,7 @@
         eta the same with x and y exchanged; missing PVi_1 default to 1, all others to 0.
    [SIP] Shupe et al. 2005, ASP Conf. 347, 491: u,v = pixel offsets from CRPIX,
         (x, y) = CD (u + f(u,v), v + g(u,v)), f = sum_{p+q <= A_ORDER} A_p_q u^p v^q. *)
-From Coq Require Import Reals List Bool Arith QArith Qabs.
+From Coq Require Import Reals List Bool Arith QArith Qabs Qminmax.
 From EsVerif.Common Require Import Base.
 From EsVerif.C10 Require Import Gen Model.
 Import ListNotations.
